@@ -139,7 +139,14 @@ def main(argv=None):
     ck.extra["facts"] = {"file": os.path.relpath(fx.path, F.VERIF), "profile": "dev",
                          "overflow_checks": fx.meta["overflow_checks"],
                          "hir_bodies": len(fx.hir), "mir_bodies": len(fx.mir)}
-    mod.run(ck, fx, cg, tier)
+    try:
+        mod.run(ck, fx, cg, tier)
+    except Exception as e:  # noqa — a rule that cannot cope with the tree's shape fails closed, as a reported obligation
+        import traceback
+        tb = traceback.extract_tb(e.__traceback__)
+        last = tb[-1] if tb else None
+        ck.ob("engine", "rule set evaluated completely", False, "%s:%s" % (os.path.basename(last.filename), last.lineno) if last else "",
+              "the checker could not evaluate its rules on this tree (%s: %s) — unprovable, reported fail-closed; this says the code left the shapes the rules understand, not that the behaviour changed" % (type(e).__name__, str(e)[:200]))
     if tier == "thorough":
         thorough(ck, mod, pid, fx, cg)
     if a.replay:
